@@ -21,7 +21,7 @@ func init() {
 			return []Canary{
 				{Name: "queue-cap-off-by-one", File: "handshake_manager.go", Old: "if len(hh.packetStore) < maxCachedPackets {", New: "if len(hh.packetStore) <= maxCachedPackets {", Rule: "C32.queue"},
 				{Name: "queue-aliases-caller-buffer", File: "handshake_manager.go", Old: "\t\ttempPacket := make([]byte, len(packet))\n\t\tcopy(tempPacket, packet)\n", New: "\t\ttempPacket := packet\n", Rule: "C32.queue"},
-				{Name: "queue-cleared-by-relay-attempt", File: "relay_manager.go", Old: "\t\thh.lastRelays = nil\n\t\treturn\n", New: "\t\thh.lastRelays = nil\n\t\thh.packetStore = hh.packetStore[:0]\n\t\treturn\n", Rule: "C32.queue"},
+				{Name: "queue-cleared-by-relay-attempt", File: "relay_manager.go", Old: "\tif len(relays) == 0 {\n\t\thh.lastRelays = nil\n\t\treturn\n", New: "\tif len(relays) == 0 {\n\t\thh.lastRelays = nil\n\t\thh.packetStore = hh.packetStore[:0]\n\t\treturn\n", Rule: "C32.queue"},
 				{Name: "give-up-one-attempt-late", File: "handshake_manager.go", Old: "if hh.counter >= hm.config.retries {", New: "if hh.counter > hm.config.retries {", Rule: "C32.retry"},
 				{Name: "give-up-keeps-pending-state", File: "handshake_manager.go", Old: "\t\thm.metricTimedOut.Inc(1)\n\t\thm.DeleteHostInfo(hostinfo)\n", New: "\t\thm.metricTimedOut.Inc(1)\n", Rule: "C32.retry"},
 				{Name: "counter-jumps-by-two", File: "handshake_manager.go", Old: "\thh.counter++\n", New: "\thh.counter += 2\n", Rule: "C32.backoff"},
